@@ -30,6 +30,9 @@ type C06Scenario struct {
 	// FaultOp > 0: the window is armed right before operation number FaultOp-1 instead of at the start, so that
 	// FaultAt counts the write attempts of that operation (a deletion, mostly)
 	FaultOp int `json:"fault_op,omitempty"`
+	// ForkCont: the continuation appended to every reopened image is a different branch on top of the surviving
+	// head (what a head-side deletion is for), after a reader has waited briefly for the next height
+	ForkCont bool `json:"fork_cont,omitempty"`
 }
 
 var c06OpKinds = []string{
@@ -50,6 +53,7 @@ func genC06(t *rapid.T) C06Scenario {
 	for i := 0; i < n; i++ {
 		s.Ops = append(s.Ops, genStoreOp(t, c06OpKinds))
 	}
+	s.ForkCont = rapid.IntRange(0, 2).Draw(t, "forkcont") == 0
 	return s
 }
 
@@ -307,7 +311,7 @@ func c06RunHistory(s C06Scenario, e *storeEnv, res *Result, faults bool) (hist *
 }
 
 // c06CheckImage opens a fresh Store on the image and applies oracle (b).
-func c06CheckImage(cfg StoreCfg, img *memds.Mem, chain *vh.Chain, must map[uint64]bool, tag string) string {
+func c06CheckImage(cfg StoreCfg, img *memds.Mem, chain *vh.Chain, must map[uint64]bool, tag string, forkCont ...bool) string {
 	ctx, cancel := vctx(24 * time.Hour)
 	defer cancel()
 	st, err := store.NewStore[*vh.Header](memds.Wrap(img, cfg.CtxAware), cfg.opts()...)
@@ -383,7 +387,53 @@ func c06CheckImage(cfg StoreCfg, img *memds.Mem, chain *vh.Chain, must map[uint6
 	if from+k >= uint64(len(chain.Headers)) {
 		return ""
 	}
-	if err := st.Append(ctx, chain.Range(from, from+k)...); err != nil {
+	cont := chain.Range(from, from+k)
+	aboveHead := false // something the caller is entitled to is stored above Head (gapped appends): no other branch then
+	for h := range must {
+		if h >= from {
+			aboveHead = true
+		}
+	}
+	if len(forkCont) > 0 && forkCont[0] && from > 1 && !aboveHead {
+		// a reader waits for the next heights until its context ends (it may be served a leftover of an interrupted
+		// head-side deletion: the statement does not speak about those), then another branch is appended
+		for h := from; h < from+k; h++ {
+			c1, cn := vctx(10 * time.Millisecond)
+			_, _ = st.GetByHeight(c1, h)
+			cn()
+		}
+		prev := chain.At(from - 1)
+		if herr == nil {
+			prev = head
+		}
+		cont = nil
+		for i := 0; i < k; i++ {
+			h := &vh.Header{Chain: prev.Chain, H: prev.H + 1, T: prev.T + int64(time.Second), Prev: prev.Hash(), Span: prev.Span, Salt: 4242}
+			h.Seal()
+			cont = append(cont, h)
+			prev = h
+		}
+		tag += " (continuation on another branch)"
+		inner := getH
+		getH = func(h uint64) *vh.Header {
+			if h < from || h >= from+k {
+				return inner(h)
+			}
+			c1, cn := vctx(time.Second)
+			defer cn()
+			want := cont[h-from]
+			g, err := st.GetByHeight(c1, h)
+			if err != nil || !vh.Equal(g, want) {
+				return nil
+			}
+			g2, err := st.Get(c1, want.Hash())
+			if err != nil || !vh.Equal(g2, want) {
+				return nil
+			}
+			return g
+		}
+	}
+	if err := st.Append(ctx, cont...); err != nil {
 		return fmt.Sprintf("%s: Append of the continuation failed: %v", tag, err)
 	}
 	if err := st.Sync(ctx); err != nil {
@@ -439,7 +489,7 @@ func runC06(t *testing.T, s C06Scenario) (res Result) {
 				}
 			}
 			must := hist.mustRetrievable(p, e.chain)
-			if v := c06CheckImage(s.Cfg, memds.FromImage(hist.log[:p]), e.chain, must, fmt.Sprintf("crash image at commit-log prefix %d/%d", p, len(hist.log))); v != "" {
+			if v := c06CheckImage(s.Cfg, memds.FromImage(hist.log[:p]), e.chain, must, fmt.Sprintf("crash image at commit-log prefix %d/%d", p, len(hist.log)), s.ForkCont); v != "" {
 				res.failf("%s", v)
 				res.Obs = map[string]any{"log_len": len(hist.log), "prefix": p, "deletions": fmt.Sprint(hist.dels)}
 				return
@@ -502,7 +552,7 @@ func runC06Faults(t *testing.T, s C06Scenario) (res Result) {
 		hist.log = e.mem.Log()
 		// crash now (image of the surviving data) ...
 		must := hist.mustRetrievable(len(hist.log), e.chain)
-		if v := c06CheckImage(s.Cfg, memds.FromImage(hist.log), e.chain, must, "image after transient write failures"); v != "" {
+		if v := c06CheckImage(s.Cfg, memds.FromImage(hist.log), e.chain, must, "image after transient write failures", s.ForkCont); v != "" {
 			res.failf("%s", v)
 		}
 		// ... and a clean stop
@@ -512,7 +562,7 @@ func runC06Faults(t *testing.T, s C06Scenario) (res Result) {
 		if res.Verdict == "" {
 			hist.log = e.mem.Log()
 			must = hist.mustRetrievable(len(hist.log), e.chain)
-			if v := c06CheckImage(s.Cfg, memds.FromImage(hist.log), e.chain, must, "clean stop after transient write failures"); v != "" {
+			if v := c06CheckImage(s.Cfg, memds.FromImage(hist.log), e.chain, must, "clean stop after transient write failures", s.ForkCont); v != "" {
 				res.failf("%s", v)
 			}
 		}
